@@ -1456,3 +1456,15 @@ package machine
 //@   assigns  m.handlers, m.handlersMx
 //@   ensures  set:   m.handlers == handlers
 //@   ensures  locks: m.handlersMx == old(m.handlersMx)
+
+// Sums of a time slice (mathematical, the result wraps like uint64): all ticks for
+// a nil selection, the selected in-range ticks otherwise - an empty selection sums to 0.
+//@ recfn TSum(t Time, n int) int := n <= 0 ? 0 : TSum(t, n - 1) + t[n - 1]
+//@ recfn TSumIdx(t Time, idxs []int, n int) int := n <= 0 ? 0 : TSumIdx(t, idxs, n - 1) + (idxs[n - 1] < len(t) ? t[idxs[n - 1]] : 0)
+//@ func (t Time) Sum(idxs []int) (r uint64)
+//@   props C20 C17
+//@   requires idx: forall i int :: 0 <= i && i < len(idxs) ==> idxs[i] >= 0
+//@   ensures  all:  isnil(idxs) ==> r == u64(TSum(t, len(t)))
+//@   ensures  some: !isnil(idxs) ==> r == u64(TSumIdx(t, idxs, len(idxs)))
+//@   loop 1 invariant acc: sum == u64(TSum(t, idx1))
+//@   loop 2 invariant acc: sum == u64(TSumIdx(t, idxs, idx2))
